@@ -2,6 +2,7 @@ package sym
 
 import (
 	"fmt"
+	"go/constant"
 	"go/types"
 	"math/big"
 	"strings"
@@ -254,9 +255,11 @@ type apdCtx struct {
 	Traps     int64
 }
 
-const (
-	condInexact = 1 << 6 // values from apd condition.go, checked at registration
-	condRounded = 1 << 8
+// condition flag values: defaults from apd v2 condition.go, overwritten at registration with
+// the constants of the apd package actually loaded
+var (
+	condInexact int64 = 1 << 4
+	condRounded int64 = 1 << 6
 )
 
 func (x *Exec) ctxOf(v Value) apdCtx {
@@ -334,6 +337,15 @@ func (x *Exec) roundTo(ctx apdCtx, mag, e *smt.Term) (*smt.Term, *smt.Term, *smt
 }
 
 func registerDecimal(p *Program) {
+	if sp := p.ByPath[apdPkg]; sp != nil {
+		for name, dst := range map[string]*int64{"Inexact": &condInexact, "Rounded": &condRounded} {
+			if c, ok := sp.Pkg.Scope().Lookup(name).(*types.Const); ok {
+				if v, exact := constant.Int64Val(constant.ToInt(c.Val())); exact {
+					*dst = v
+				}
+			}
+		}
+	}
 	ctxOp := func(op string) Intrinsic {
 		return func(x *Exec, c *CallCtx) Value {
 			B := x.B
@@ -743,6 +755,51 @@ func registerDecimal(p *Program) {
 	p.Intr["(*math/big.Int).Int64"] = func(x *Exec, c *CallCtx) Value {
 		a := x.bigSigned(x.loadBig(c.Args[0]))
 		return IntV{x.B.Wrap(a, 64, true)}
+	}
+	p.Intr["(*math/big.Int).Bit"] = func(x *Exec, c *CallCtx) Value {
+		B := x.B
+		m := x.bufMag(x.loadBig(c.Args[0]))
+		i, ok := c.Args[1].(IntV).T.ConstInt64()
+		if !ok || i < 0 || i > 512 {
+			x.Unsupported("big.Int.Bit with a symbolic or large index")
+		}
+		return IntV{B.Mod(B.Div(m, B.BigInt(new(big.Int).Lsh(big.NewInt(1), uint(i)))), B.Int(2))}
+	}
+	p.Intr["(*math/big.Int).Abs"] = func(x *Exec, c *CallCtx) Value {
+		a := x.loadBig(c.Args[1])
+		x.writeBig(c.Args[0], x.B.False, x.bufContent(a), false)
+		return c.Args[0]
+	}
+	p.Intr["(*math/big.Int).SetInt64"] = func(x *Exec, c *CallCtx) Value {
+		neg, mag := x.mkBigFromSigned(c.Args[1].(IntV).T)
+		x.writeBig(c.Args[0], neg, BufContent{Mag: mag}, false)
+		return c.Args[0]
+	}
+	p.Intr["(*math/big.Int).SetUint64"] = p.Intr["(*math/big.Int).SetInt64"]
+	p.Intr["(*math/big.Int).IsUint64"] = func(x *Exec, c *CallCtx) Value {
+		B := x.B
+		a := x.bigSigned(x.loadBig(c.Args[0]))
+		_, hi := smt.TypeRange(64, false)
+		return BoolV{B.And(B.Le(B.Int(0), a), B.Le(a, B.BigInt(hi)))}
+	}
+	p.Intr["(*math/big.Int).Uint64"] = func(x *Exec, c *CallCtx) Value {
+		return IntV{x.B.Wrap(x.bufMag(x.loadBig(c.Args[0])), 64, false)}
+	}
+	p.Intr["(*math/big.Int).CmpAbs"] = func(x *Exec, c *CallCtx) Value {
+		B := x.B
+		a, b := x.bufMag(x.loadBig(c.Args[0])), x.bufMag(x.loadBig(c.Args[1]))
+		return IntV{B.Ite(B.Lt(a, b), B.Int(-1), B.Ite(B.Eq(a, b), B.Int(0), B.Int(1)))}
+	}
+	p.Intr["(*math/big.Int).Rem"] = func(x *Exec, c *CallCtx) Value {
+		B := x.B
+		a := x.loadBig(c.Args[1])
+		b := x.loadBig(c.Args[2])
+		if x.Branch(B.Eq(x.bufMag(b), B.Int(0))) {
+			panic(goPanic{Msg: "division by zero"})
+		}
+		mag := B.Mod(x.bufMag(a), x.bufMag(b))
+		x.writeBig(c.Args[0], B.And(a.Neg, B.Not(B.Eq(mag, B.Int(0)))), BufContent{Mag: mag}, false)
+		return c.Args[0]
 	}
 	p.Intr["(*math/big.Int).BitLen"] = func(x *Exec, c *CallCtx) Value {
 		x.Unsupported("big.Int.BitLen")
